@@ -92,6 +92,16 @@ func checkC24(h *hx.H, c c24Case) {
 	ex0, ey0 = math.Min(ex0, float64(btl.X)), math.Min(ey0, float64(btl.Y))
 	ex1, ey1 = math.Max(ex1, float64(bbr.X)), math.Max(ey1, float64(bbr.Y))
 	within := func(v, a, b float64) bool { return v >= math.Min(a, b)-1.5 && v <= math.Max(a, b)+1.5 }
+	// d2 counts the labels of the main diagram's connections into the box it centres on, at
+	// positions it computes itself at that stage (not the exported ones): with labelled
+	// connections the centre it aims at cannot be reconstructed from outside (found by the
+	// thorough tier: centres 5-19 px off both candidate boxes, only in such diagrams)
+	labelledConn := false
+	for _, cn := range main.Connections {
+		if cn.Label != "" {
+			labelledConn = true
+		}
+	}
 	nn := 0
 	for _, o := range g.Root.ChildrenArray {
 		if !isNear(o) {
@@ -117,7 +127,7 @@ func checkC24(h *hx.H, c c24Case) {
 		}
 		if pos == "top-center" || pos == "bottom-center" {
 			cx := (l + rt) / 2
-			if !within(cx, (x0+x1)/2, (ex0+ex1)/2) && math.Abs((x0+x1)/2-(ex0+ex1)/2) > 1.5 {
+			if !within(cx, (x0+x1)/2, (ex0+ex1)/2) && (labelledConn || math.Abs((x0+x1)/2-(ex0+ex1)/2) > 1.5) {
 				h.Gray() // labels/routes stick out of the shapes: which box is meant is not stated
 			} else if !within(cx, (x0+x1)/2, (ex0+ex1)/2) {
 				h.Failf("not-h-centered", "not centred horizontally (centre %.1f, shapes box centre %.1f, extended box centre %.1f): %s", cx, (x0+x1)/2, (ex0+ex1)/2, desc)
@@ -125,7 +135,7 @@ func checkC24(h *hx.H, c c24Case) {
 		}
 		if pos == "center-left" || pos == "center-right" {
 			cy := (tp + b) / 2
-			if !within(cy, (y0+y1)/2, (ey0+ey1)/2) && math.Abs((y0+y1)/2-(ey0+ey1)/2) > 1.5 {
+			if !within(cy, (y0+y1)/2, (ey0+ey1)/2) && (labelledConn || math.Abs((y0+y1)/2-(ey0+ey1)/2) > 1.5) {
 				h.Gray()
 			} else if !within(cy, (y0+y1)/2, (ey0+ey1)/2) {
 				h.Failf("not-v-centered", "not centred vertically (centre %.1f, shapes box centre %.1f, extended box centre %.1f): %s", cy, (y0+y1)/2, (ey0+ey1)/2, desc)
